@@ -59,10 +59,7 @@ class _Obj:
     pass
 
 
-from aiomysensors.model.message import Message as _Message  # noqa: E402
-
-JUNK = {"str": "invalid", "none": None, "int": 42, "object": _Obj(), "dictmissing": {"node_id": 1},
-        "class": _Message}      # the class instead of an instance (forgotten parentheses)
+JUNK = {"str": "invalid", "none": None, "int": 42, "object": _Obj(), "dictmissing": {"node_id": 1}}
 
 # ---------------------------------------------------------------------------------------
 # TLC on a focus configuration
